@@ -1451,9 +1451,212 @@ theorem cachedRun_sound {ρ κ β : Type} [DecidableEq κ] (key : ρ → κ) (fr
         · exact ⟨r, hS r (by simp), rfl, rfl⟩
         · exact hinv e he
 
+/-- a stale answer (one that is not the fresh encoding of its request) can only come from an *earlier* request
+    with the same key whose fresh encoding differs: a key collision -/
+theorem cachedRun_stale {ρ κ β : Type} [DecidableEq κ] (key : ρ → κ) (fresh : ρ → β) :
+    ∀ (reqs : List ρ) (cache : List (κ × β)) (prev : List ρ),
+      (∀ e ∈ cache, ∃ a ∈ prev, key a = e.1 ∧ fresh a = e.2) →
+      ∀ p ∈ cachedRun key fresh cache reqs, p.2 ≠ fresh p.1 →
+        ∃ a ∈ prev ++ reqs, key a = key p.1 ∧ fresh a ≠ fresh p.1 := by
+  intro reqs
+  induction reqs with
+  | nil => intro cache prev _ p hp; simp [cachedRun] at hp
+  | cons r rs ih =>
+    intro cache prev hinv p hp hne
+    simp only [cachedRun, cachedStep] at hp
+    have hsub : ∀ a, a ∈ (prev ++ [r]) ++ rs → a ∈ prev ++ r :: rs := by
+      intro a ha; simp only [List.mem_append, List.mem_cons, List.not_mem_nil, or_false] at ha ⊢
+      rcases ha with (h | h) | h
+      · exact Or.inl h
+      · exact Or.inr (Or.inl h)
+      · exact Or.inr (Or.inr h)
+    cases hg : cacheGet cache (key r) with
+    | some v =>
+      rw [hg] at hp
+      simp only [List.mem_cons] at hp
+      rcases hp with rfl | hp
+      · obtain ⟨a, ha, hk, hf⟩ := hinv _ (cacheGet_some cache (key r) v hg)
+        simp only at hk hf hne ⊢
+        exact ⟨a, by simp [ha], hk, by rw [hf]; exact hne⟩
+      · obtain ⟨a, ha, h1, h2⟩ := ih cache (prev ++ [r])
+          (fun e he => by obtain ⟨a, ha, h⟩ := hinv e he; exact ⟨a, by simp [ha], h⟩) p hp hne
+        exact ⟨a, hsub a ha, h1, h2⟩
+    | none =>
+      rw [hg] at hp
+      simp only [List.mem_cons] at hp
+      rcases hp with rfl | hp
+      · exact absurd rfl hne
+      · obtain ⟨a, ha, h1, h2⟩ := ih ((key r, fresh r) :: cache) (prev ++ [r]) (by
+          intro e he
+          simp only [List.mem_cons] at he
+          rcases he with rfl | he
+          · exact ⟨r, by simp, rfl, rfl⟩
+          · obtain ⟨a, ha, h⟩ := hinv e he; exact ⟨a, by simp [ha], h⟩) p hp hne
+        exact ⟨a, hsub a ha, h1, h2⟩
+
 theorem cachedRun_two {ρ κ β : Type} [DecidableEq κ] (key : ρ → κ) (fresh : ρ → β) (a b : ρ) (h : key a = key b) :
     cachedRun key fresh [] [a, b] = [(a, fresh a), (b, fresh a)] := by
   simp [cachedRun, cachedStep, cacheGet, h]
+
+
+/-- position-wise consequence of two mapped lists being equal -/
+theorem zip_of_map_eq {α β γ : Type} (f : α → γ) (g : β → γ) :
+    ∀ (l1 : List α) (l2 : List β), l2.map g = l1.map f → ∀ p ∈ l1.zip l2, g p.2 = f p.1 := by
+  intro l1
+  induction l1 with
+  | nil => intro l2 _ p hp; simp at hp
+  | cons a t ih =>
+    intro l2 h p hp
+    cases l2 with
+    | nil => simp at hp
+    | cons b t2 =>
+      simp only [List.map_cons, List.cons.injEq] at h
+      simp only [List.zip_cons_cons, List.mem_cons] at hp
+      rcases hp with rfl | hp
+      · exact h.1
+      · exact ih t2 h.2 p hp
+
+/-- the tensor a cache-bypassing call of the model returns, as its holder sees it (`pk`: the traversal flag, which
+    the model does not compute) -/
+def tensorOf (c : Cfg) (out : Out) (pk : Bool) : ETensor :=
+  ⟨out.stream, (artefactOf c out).ranges, out.dbs.1, out.dbs.2, pk⟩
+
+theorem extract_toList (a : Array Nat) (s n : Nat) : (a.extract s (s + n)).toList = bytesAt a.toList s n := by
+  unfold bytesAt
+  rw [Array.toList_extract, List.extract_eq_take_drop]
+  simp
+
+theorem bytesAt_mid (pre mid post : List Nat) (off n : Nat) (h : off + n ≤ mid.length) :
+    bytesAt (pre ++ mid ++ post) (pre.length + off) n = bytesAt mid off n := by
+  unfold bytesAt
+  rw [List.append_assoc, List.drop_append, List.drop_of_length_le (by omega), List.nil_append]
+  have : pre.length + off - pre.length = off := by omega
+  rw [this, List.drop_append_of_le_length (by omega), List.take_append_of_le_length (by simp; omega)]
+
+/-- model end to end for the cache: request A fills the table; request B (same weights, other biases) is answered
+    with A's tensor and a stand-alone scale tensor; `f` is B's fresh encoding -/
+def witnessCfgB : Cfg := { witnessCfg with biases := witnessCfg.biases.map (· + 5) }
+
+def transparencyWitness : Option (ETensor × Option ETensor × ETensor) :=
+  match encodeTensor witnessCfg [0, 4, 8], encodeTensor { witnessCfgB with doWeights := false } [0, 4, 8],
+        encodeTensor witnessCfgB [0, 4, 8] with
+  | .ok a, .ok s, .ok f =>
+    some (tensorOf witnessCfg a true, some (tensorOf { witnessCfgB with doWeights := false } s true), tensorOf witnessCfgB f true)
+  | _, _, _ => none
+
+def toRng (region : Nat) (a : AddrRange) : Rng := ⟨region, a.address, a.length⟩
+
+/-- model end to end for the registers: the witness tensor at address 64 of a constants image, the stripe `[4, 8)`
+    read in place and through a buffer at 256 of region 1 filled by the DMA of `createDmaOp`:
+    (in place ok, buffered ok after the DMA, scale base 16 bytes off, buffered without the DMA) -/
+def emittedWitness : Option (Bool × Bool × Bool × Bool) :=
+  match encodeTensor witnessCfg [0, 4, 8] with
+  | .ok out =>
+    let m : ConstMem := ⟨0, (List.replicate 64 0xAA ++ out.stream).toArray, []⟩
+    match createWeights 2 out.rawRanges 64 none none 4, createWeights 2 out.rawRanges 64 (some 256) none 4,
+          createDmaOp 2 out.rawRanges 64 256 4 with
+    | some (ws, bs), some (wsB, bsB), some (src, dst) =>
+      let direct : OpConsts := ⟨2, 4, 8, bs.map (toRng 0), ws.map (toRng 0)⟩
+      let m' := m.dma (toRng 0 src) (toRng 1 dst)
+      let buffered : OpConsts := ⟨2, 4, 8, bsB.map (toRng 1), wsB.map (toRng 1)⟩
+      let wrong : OpConsts := { direct with scales := direct.scales.map fun r => { r with addr := r.addr + 16 } }
+      let own := [List.replicate 32 0, List.replicate 32 0]
+      some (decide (ScaleRegsOk m (expOf witnessCfg) direct ∧ WeightRegsOk m direct own),
+            decide (ScaleRegsOk m' (expOf witnessCfg) buffered ∧ WeightRegsOk m' buffered own),
+            decide (ScaleRegsOk m (expOf witnessCfg) wrong),
+            decide (ScaleRegsOk m (expOf witnessCfg) buffered))
+    | _, _, _ => none
+  | .error _ => none
+
+/-- the (scale) address range `create_weights` derives for core `k` when the tensor is read in place -/
+def directScale (rs : List Range) (src depth k : Nat) : AddrRange :=
+  match findRange rs k depth with
+  | some r => ⟨src + r.offset, roundUp16 r.scaleBytes⟩
+  | none => ⟨0, 0⟩
+
+def directWeight (rs : List Range) (src depth k : Nat) : AddrRange :=
+  match findRange rs k depth with
+  | some r => ⟨src + r.offset + r.weightOffset, roundUp16 r.weightBytes⟩
+  | none => ⟨0, 0⟩
+
+theorem createWeightsLoop_direct_map (rs : List Range) (src depth : Nat) :
+    ∀ (cores : List Nat) (off0 : Nat), (∀ k ∈ cores, (findRange rs k depth).isSome) →
+      createWeightsLoop rs src none none depth cores off0
+        = some (cores.map (directWeight rs src depth), cores.map (directScale rs src depth)) := by
+  intro cores
+  induction cores with
+  | nil => intro off0 _; rfl
+  | cons k ks ih =>
+    intro off0 hall
+    have hk := hall k (by simp)
+    cases hf : findRange rs k depth with
+    | none => rw [hf] at hk; simp at hk
+    | some r =>
+      simp only [createWeightsLoop, hf]
+      rw [ih off0 (fun x hx => hall x (by simp [hx]))]
+      simp [directWeight, directScale, hf]
+
+theorem mem_zip_map_self {α β : Type} (f : α → β) : ∀ (l : List α) (p : α × β), p ∈ l.zip (l.map f) → p.2 = f p.1 := by
+  intro l
+  induction l with
+  | nil => intro p hp; simp at hp
+  | cons a t ih =>
+    intro p hp
+    simp only [List.map_cons, List.zip_cons_cons, List.mem_cons] at hp
+    rcases hp with rfl | hp
+    · rfl
+    · exact ih p hp
+
+theorem chanOf_nonempty (n k off len : Nat) (hk : k < n) (hl : k < len) : (chanOf n k off len).length ≠ 0 := by
+  have : off + k ∈ chanOf n k off len := by
+    unfold chanOf
+    simp only [List.mem_map, List.mem_filter, List.mem_range, decide_eq_true_eq]
+    exact ⟨k, ⟨hl, Nat.mod_eq_of_lt hk⟩, rfl⟩
+  intro h0
+  have := List.length_pos_of_mem this
+  omega
+
+theorem find_made (c : Cfg) (offsets : List Nat) (out : Out) (hv : ValidReq (reqOf c offsets))
+    (h : encodeTensor c offsets = .ok out) (s : Nat × Nat × Nat) (hs : s ∈ slices offsets) (k : Nat)
+    (hk : k < activeCores (reqOf c offsets)) :
+    ∃ r, findRange out.rawRanges k s.2.1 = some r ∧ r ∈ out.rawRanges ∧ Made c s.1 s.2.1 s.2.2 k r := by
+  have hf := encodeTensor_facts c offsets out h
+  obtain ⟨_, hb, _, _, _, hsorted⟩ := hv
+  have he : (⟨s.1, k, s.2.1, s.2.2⟩ : Expect) ∈ expected (reqOf c offsets) := (mem_expected_iff _ _).2 ⟨hs, hk⟩
+  obtain ⟨r, hr, hm⟩ := (made_expected c offsets out hb hf).exists_right _ he
+  cases hfind : findRange out.rawRanges k s.2.1 with
+  | none =>
+    unfold findRange at hfind
+    have := List.find?_eq_none.1 hfind r hr
+    simp [hm.hcore, hm.hdepth] at this
+  | some r' =>
+    obtain ⟨hr', hc', hd'⟩ := findRange_mem _ _ _ _ hfind
+    rcases pairwise_mem_cases (rawRanges_distinct c offsets out hsorted hf) r' r hr' hr with hx | hx | hx
+    · subst hx; exact ⟨r', rfl, hr, hm⟩
+    · exact absurd ⟨by rw [hc', hm.hcore], by rw [hd', hm.hdepth]⟩ hx
+    · exact absurd ⟨by rw [hc', hm.hcore], by rw [hd', hm.hdepth]⟩ hx
+
+theorem read_in_image (m : ConstMem) (pre mid post : List Nat) (himg : m.image.toList = pre ++ mid ++ post)
+    (off n : Nat) (hin : off + n ≤ mid.length) :
+    m.read ⟨m.constRegion, pre.length + off, n⟩ = some (bytesAt mid off n) := by
+  have hsize : m.image.size = pre.length + mid.length + post.length := by
+    rw [← Array.length_toList, himg]; simp; omega
+  unfold ConstMem.read
+  simp only [if_true]
+  rw [if_pos (by rw [hsize]; omega), extract_toList, himg, bytesAt_mid _ _ _ _ _ hin]
+
+theorem mem_zip_map_map {α β γ : Type} (f : α → β) (g : α → γ) :
+    ∀ (l : List α) (p : β × γ), p ∈ (l.map f).zip (l.map g) → ∃ k ∈ l, p = (f k, g k) := by
+  intro l
+  induction l with
+  | nil => intro p hp; simp at hp
+  | cons a t ih =>
+    intro p hp
+    simp only [List.map_cons, List.zip_cons_cons, List.mem_cons] at hp
+    rcases hp with rfl | hp
+    · exact ⟨a, by simp, rfl⟩
+    · obtain ⟨k, hk, hp'⟩ := ih p hp
+      exact ⟨k, by simp [hk], hp'⟩
 
 
 /-- a small one-core configuration with three channels split `[0, 1, 3]`: slice 1 is larger than slice 0 -/
